@@ -602,6 +602,22 @@ class MergeServers(Spec):
         out.post = {"arg_after": sm, "arg_before": before}
         return out
 
+    def native(self, a):
+        from allmydata.util.happinessutil import merge_servers
+
+        class Tracker(object):
+            def __init__(self, sv, b):
+                self.sv, self.buckets = sv.encode(), {sh: "bucket-writer" for sh in b}
+
+            def get_serverid(self):
+                return self.sv
+        sm = {sh: set(s.encode() for s in ss) for sh, ss in a["sm"]}
+        before = {k: set(v) for k, v in sm.items()}
+        tr = None if a["tr"] is None else set(Tracker(sv, tuple(b)) for sv, b in a["tr"])
+        out = native_outcome(lambda: merge_servers(sm, tr))
+        out.post = {"arg_after": sm, "arg_before": before}
+        return out
+
     def ensures(self, I, a, out):
         want = {sh: set(s.encode() for s in ss) for sh, ss in a["sm"]}
         for sv, b in (a["tr"] or ()):
